@@ -52,6 +52,12 @@ def script_to_spec(sc: dict, idx: int, variant: int) -> dict:
             "sprout": {"kind": "scripted", "limit": (None if cfg["limit"] < 0 else cfg["limit"])},
             "script": {"gsc": gsc, "lsc": lsc, "offers": offers},
             "expect": sc["final"], "model_cfg": cfg["name"], "max_consults": 400}
+    if idx % 3 == 0:
+        spec["reports"] = True
+    if idx % 4 == 1:
+        spec["dump_at"] = (idx // 4) % 3      # snapshot point enumerated with the scenario
+        if idx % 8 == 1:
+            spec["objective_form"] = "lambda"
     return spec
 
 
